@@ -446,12 +446,15 @@ func main() {
 	out := flag.String("out", "", "Lean file to write (default: stdout)")
 	fallback := flag.String("fallback", "", "file copied to -out when the source cannot be translated")
 	walkout := flag.String("walkout", "", "Lean file to write the translation of the cost walk to (GeneratedWalk.lean)")
+	connout := flag.String("connout", "", "Lean file to write the translation of pagination.go's connection cost functions to (GeneratedConn.lean)")
 	flag.Parse()
 	if *repo == "" {
 		*repo = "/repo"
 	}
+	failed := false
 	text, err := translate(*repo)
 	if err != nil {
+		failed = true
 		fmt.Fprintln(os.Stderr, "c14facts:", err)
 		if *fallback != "" && *out != "" {
 			if fb, ferr := os.ReadFile(*fallback); ferr == nil {
@@ -460,30 +463,52 @@ func main() {
 				}
 			}
 		}
-		os.Exit(1)
-	}
-	if *out == "" {
+	} else if *out == "" {
 		fmt.Print(text)
 	} else if err := writeIfChanged(*out, []byte(text)); err != nil {
 		fmt.Fprintln(os.Stderr, "c14facts:", err)
 		os.Exit(1)
 	}
+	// the three translations are independent: each is attempted, each failure is reported, any failure is exit 1
 	if *walkout != "" {
-		wtext, werr := translateWalk(*repo, lastTr, lastFile, lastFset)
+		var wtext string
+		werr := fmt.Errorf("cannot translate: validate_cost.go could not be parsed")
+		if lastTr != nil {
+			wtext, werr = translateWalk(*repo, lastTr, lastFile, lastFset)
+		}
 		if werr != nil {
+			failed = true
 			fmt.Fprintln(os.Stderr, "c14facts:", werr)
 			if *walkout != "-" {
 				if e2 := writeIfChanged(*walkout, []byte(walkStub(werr.Error()))); e2 == nil {
 					fmt.Fprintln(os.Stderr, "c14facts: wrote a file without definitions to", *walkout, "(the theorems about the generated walk stop checking; the harness decides whether a failing input exists)")
 				}
 			}
-			os.Exit(1)
-		}
-		if *walkout == "-" {
+		} else if *walkout == "-" {
 			fmt.Print(wtext)
 		} else if err := writeIfChanged(*walkout, []byte(wtext)); err != nil {
 			fmt.Fprintln(os.Stderr, "c14facts:", err)
 			os.Exit(1)
 		}
+	}
+	if *connout != "" {
+		ctext, cerr := translateConn(*repo)
+		if cerr != nil {
+			failed = true
+			fmt.Fprintln(os.Stderr, "c14facts:", cerr)
+			if *connout != "-" {
+				if e2 := writeIfChanged(*connout, []byte(connStub(cerr.Error()))); e2 == nil {
+					fmt.Fprintln(os.Stderr, "c14facts: wrote a file without definitions to", *connout, "(the theorems about the generated connection cost functions stop checking)")
+				}
+			}
+		} else if *connout == "-" {
+			fmt.Print(ctext)
+		} else if err := writeIfChanged(*connout, []byte(ctext)); err != nil {
+			fmt.Fprintln(os.Stderr, "c14facts:", err)
+			os.Exit(1)
+		}
+	}
+	if failed {
+		os.Exit(1)
 	}
 }
